@@ -38,3 +38,15 @@ harness!(k1_valtype_encoder_matches_upstream);
 harness!(k4_ieee32_from_float_bits);
 harness!(k4_ieee64_from_float_bits);
 harness!(k4_v128_bytes_preserved);
+
+// loops: one initialiser instruction, LEB128 of at most 10 bytes, byte-vector comparison of at most 12 bytes; unwinding
+// assertions are on, so the run is complete for single-constant initialisers (not a bounded stand-in)
+#[kani::proof]
+#[kani::unwind(14)]
+fn k4_initexpr_numeric_const_matches_upstream() {
+    let mut s = KaniSrc;
+    if let Some((ok, _)) = bodies::k4_initexpr_numeric_const_matches_upstream(&mut s) {
+        assert!(ok);
+    }
+}
+
